@@ -69,15 +69,18 @@ def run_scenario(args):
             r, mod = sol.check(name, e, timeout_s=qt)
             out['queries'].append({'name': name, 'verdict': r, 'time_s': round(sol.log[-1][2], 2)})
             return r, mod
-        # 1. bound / encoder obligations must be unreachable
-        kinds = sorted(set(k for k, _, _ in w.m.obligations))
-        for kind in kinds:
-            r, mod = ask('obligation:' + kind, Or(*[g for k, _, g in w.m.obligations if k == kind]))
-            if r == 'sat':
-                which = sorted(set(t for k, t, g in w.m.obligations if k == kind and evaluate(g, mod)))
-                out['status'] = 'inconclusive'; out['notes'].append('bound/encoder obligation reachable (%s): %s' % (kind, '; '.join(which[:3])))
-            elif r != 'unsat':
-                out['status'] = 'inconclusive'; out['notes'].append('obligation %s: solver %s' % (kind, mod))
+        # 1. bound / encoder obligations must be unreachable (one query; split by kind only when it is not UNSAT)
+        allobl = Or(*[g for _, _, g in w.m.obligations])
+        r, mod = ask('obligations:all(%d)' % len(w.m.obligations), allobl)
+        if r != 'unsat':
+            kinds = sorted(set(k for k, _, _ in w.m.obligations))
+            for kind in kinds:
+                r, mod = ask('obligation:' + kind, Or(*[g for k, _, g in w.m.obligations if k == kind]))
+                if r == 'sat':
+                    which = sorted(set(t for k, t, g in w.m.obligations if k == kind and evaluate(g, mod)))
+                    out['status'] = 'inconclusive'; out['notes'].append('bound/encoder obligation reachable (%s): %s' % (kind, '; '.join(which[:3])))
+                elif r != 'unsat':
+                    out['status'] = 'inconclusive'; out['notes'].append('obligation %s: solver %s' % (kind, mod))
         # 2. vacuity witness: the scenario can run to completion within the bounds
         r, mod = ask('witness:quiescent', w.quiescent)
         if r != 'sat':
@@ -88,9 +91,18 @@ def run_scenario(args):
         #    and the oracle is asked again, so that a different violation of the same oracle is still found.
         from .known import PREDICATES
         known = [f for f in load_known().get('findings', []) if f.get('status') == 'known' and f['property'] == spec.get('prop')]
+        allclauses = []
         for oname in spec['oracles']:
-            clauses = ORACLES[oname](w)
-            clauses = [(n, g) for n, g in clauses if g is not FALSE]
+            cl = [(n, g) for n, g in ORACLES[oname](w) if g is not FALSE]
+            out.setdefault('clauses', {})[oname] = len(cl)
+            allclauses += [(oname, n, g) for n, g in cl]
+        excl = TRUE
+        r, mod = ask('oracles:all(%d clauses)' % len(allclauses), Or(*[g for _, _, g in allclauses]))
+        todo = [] if r == 'unsat' else list(spec['oracles'])
+        if r not in ('sat', 'unsat'):
+            out['status'] = 'inconclusive'; out['notes'].append('oracles: solver %s' % (mod,))
+        for oname in todo:
+            clauses = [(n, g) for o, n, g in allclauses if o == oname]
             excl = TRUE
             for attempt in range(1 + len(known)):
                 r, mod = ask('oracle:' + oname + ('' if attempt == 0 else '#%d' % attempt), And(excl, Or(*[g for _, g in clauses])))
@@ -109,7 +121,6 @@ def run_scenario(args):
                 elif r != 'unsat':
                     out['status'] = 'inconclusive'; out['notes'].append('oracle %s: solver %s' % (oname, mod))
                 break
-            out.setdefault('clauses', {})[oname] = len(clauses)
         out['solver_s'] = round(sol.qtime, 2); out['nqueries'] = sol.nqueries
         sol.close()
     except Exception as e:
